@@ -531,6 +531,9 @@ type c19Runner struct {
 	writes   []memds.WriteEvent
 	onFinish func(o *c19Op)            // called by the controller when an operation completes or crashes
 	onStep   func(newWrites []memds.WriteEvent) // called after every scheduling step with the writes it produced
+	// pickHook may choose the call to release itself (scheduling strategies); -1 leaves the choice
+	// to the uniform draw.
+	pickHook func(calls []*memds.Call) int
 	// faultHook may decide the fault for a call itself (targeted fault scenarios); ok=false leaves
 	// the decision to the weighted draw.
 	faultHook func(c *memds.Call, o *c19Op) (f memds.Fault, ok bool)
@@ -651,9 +654,15 @@ func c19HandleDelta(old, new any) map[string]bool {
 // stepOnce picks one parked call and a fault for it, and releases it.
 func (r *c19Runner) stepOnce(calls []*memds.Call) {
 	r.step++
-	idx := 0
-	if len(calls) > 1 {
-		idx = rapid.IntRange(0, len(calls)-1).Draw(r.t, "pick")
+	idx := -1
+	if r.pickHook != nil {
+		idx = r.pickHook(calls)
+	}
+	if idx < 0 {
+		idx = 0
+		if len(calls) > 1 {
+			idx = rapid.IntRange(0, len(calls)-1).Draw(r.t, "pick")
+		}
 	}
 	c := calls[idx]
 	o := r.byOp[c.Op]
